@@ -474,6 +474,45 @@ def run(prog: Program, res: Result, tier: str) -> None:
     check_reader(prog, res, prog.func(READERS, "FilReader.read_plan"), "fil")
     check_reader(prog, res, prog.func(READERS, "PFITSReader.read_plan"), "pfits")
     check_library_plans(prog, res)
+    # ---- R10: byte/element units the plan is written in ---------------------------------------------------------
+    rd = prog.cls(READERS, "FilReader")
+    bi = prog.cls("sigpyproc.io.bits", "BitsInfo")
+    unit_defs = [
+        (rd, "chan_stride", "self.bitsinfo.itemsize / self.bitsinfo.bitfact", "bytes per stored channel sample = itemsize / (samples per byte)"),
+        (rd, "samp_stride", "int(self.header.nchans * self.chan_stride)", "bytes per time sample = nchans * bytes per channel sample"),
+        (rd, "bitsinfo", "self._file.bitsinfo", "the reader's BitsInfo is the stream's"),
+        (bi, "bitfact", "8 // self.nbits if self.unpack else 1", "samples per byte = 8 // nbits for packed depths, else 1"),
+        (bi, "unpack", "bool(self.nbits in {1, 2, 4})", "packed depths are exactly 1, 2 and 4 bits"),
+        (bi, "itemsize", "self.dtype.itemsize", "itemsize of the storage dtype"),
+        (bi, "dtype", "np.dtype(nbits_to_dtype[self.nbits])", "storage dtype from the nbits_to_dtype table"),
+    ]
+    from ..props import property_expr
+    for cls_, name, want, what in unit_defs:
+        pe = property_expr(prog, cls_, name)
+        m = cls_.methods.get(name)
+        ok = pe is not None and norm(pe) == want
+        if not ok and pe is not None:
+            try:
+                ok = PolyEnv(atom_hook=transparent_casts).poly(pe) == PolyEnv(atom_hook=transparent_casts).poly(ast.parse(want, mode="eval").body) and \
+                    ("int(" in want) == ("int(" in norm(pe))
+            except Exception:  # noqa: BLE001
+                ok = False
+        (res.ok if ok else res.bad)("R10", m, m.node if m else cls_.node, f"{cls_.name}.{name}: {what}" if ok else
+                                    f"{cls_.name}.{name} is `{norm(pe) if pe is not None else '?'}`, expected `{want}` ({what}): every byte offset and buffer size of "
+                                    f"the plan is in these units", construct=f"{cls_.name}.{name}", key=f"unit:{cls_.name}.{name}")
+    table = prog.literal("sigpyproc.io.bits", "nbits_to_dtype")
+    want_t = {1: "<u1", 2: "<u1", 4: "<u1", 8: "<u1", 16: "<u2", 32: "<f4"}
+    (res.ok if table == want_t else res.bad)("R10", None, prog.const("sigpyproc.io.bits", "nbits_to_dtype"),
+                                              "nbits_to_dtype: 1/2/4/8 -> 1 byte, 16 -> 2 bytes, 32 -> 4-byte float" if table == want_t else
+                                              f"nbits_to_dtype is {table}, expected {want_t}", construct="nbits_to_dtype", key="unit:nbits_to_dtype",
+                                              where="sigpyproc.io.bits::nbits_to_dtype")
+    fr = prog.func("sigpyproc.io.fileio", "FileReader.__init__")
+    okb = "self.bitsinfo = BitsInfo(nbits)" in norm(fr.node)
+    init = prog.func(READERS, "FilReader.__init__")
+    okn = "self._file = FileReader(self.header.stream_info, mode='r', nbits=self.header.nbits)" in norm(init.node)
+    (res.ok if okb and okn else res.bad)("R10", init, init.node, "the stream is opened with the header's depth and its BitsInfo is built from it" if okb and okn else
+                                         "the reader's FileReader/BitsInfo is no longer built from header.nbits", construct="FilReader.__init__", key="unit:init")
+
     # ---- R9: the stream primitives the plan relies on (multi-file sets): shared with C02 ----------------
     # read_plan rewinds with a *relative* seek and reads across file boundaries with creadinto; both are only right if
     # the reported stream position, the offset->(file, in-file offset) map and the file-advance loop are right.
@@ -495,11 +534,18 @@ def run(prog: Program, res: Result, tier: str) -> None:
     res.floor("R7", 3)
     res.floor("R8", 2)
     res.floor("R9", 20)
+    res.floor("R10", 9)
 
 
 R = "sigpyproc/readers.py"
 B = "sigpyproc/base.py"
 MUTANTS = [
+    {"id": "c01-samp-stride-no-bitfact", "file": R, "expect": "C01.R10",
+     "old": "        return self.bitsinfo.itemsize / self.bitsinfo.bitfact", "new": "        return self.bitsinfo.itemsize"},
+    {"id": "c01-bitfact-4bit", "file": "sigpyproc/io/bits.py", "expect": "C01.R10",
+     "old": "        return 8 // self.nbits if self.unpack else 1", "new": "        return 8 // self.nbits if self.nbits < 4 else 1"},
+    {"id": "c01-dtype-table-16", "file": "sigpyproc/io/bits.py", "expect": "C01.R10",
+     "old": "16: \"<u2\"", "new": "16: \"<u1\""},
     {"id": "c01-unbounded-read", "file": R, "expect": "C01.R2",
      "old": "                memoryview(read_buffer)[:expected_nbytes],", "new": "                read_buffer,"},
     {"id": "c01-unpack-unbounded", "file": R, "expect": "C01.R2",
@@ -528,7 +574,7 @@ MUTANTS = [
     {"id": "c01-fold-no-gulp-raise", "file": B, "expect": "C01.R7",
      "old": "        max_delay = int(chan_delays.max())\n        gulp = max(2 * max_delay, gulp)\n        fold_ar =", "new": "        max_delay = int(chan_delays.max())\n        fold_ar ="},
     {"id": "c01-dedisp-gulp-1x", "file": B, "expect": "C01.R7",
-     "old": "        gulp = max(2 * max_delay, gulp)\n        tim_len", "new": "        gulp = max(max_delay + 1, gulp)\n        tim_len"},
+     "old": "        gulp = max(2 * max_delay, gulp)\n        nsamps_range", "new": "        gulp = max(max_delay + 1, gulp)\n        nsamps_range"},
     {"id": "c01-readbuf-elements", "file": R, "expect": "C01.R6",
      "old": "read_buffer = allocate_buffer(allocator, gulp * self.samp_stride)", "new": "read_buffer = allocate_buffer(allocator, gulp * self.header.nchans)"},
     {"id": "c01-stride-gulp", "file": R, "expect": "C01.R8",
@@ -556,5 +602,5 @@ TWINS = [
     {"id": "c01-twin-alloc-commuted", "file": R,
      "old": "read_buffer = allocate_buffer(allocator, gulp * self.samp_stride)", "new": "read_buffer = allocate_buffer(allocator, self.samp_stride * gulp)"},
     {"id": "c01-twin-max-args", "file": B,
-     "old": "        gulp = max(2 * max_delay, gulp)\n        tim_len", "new": "        gulp = max(gulp, max_delay * 2)\n        tim_len"},
+     "old": "        gulp = max(2 * max_delay, gulp)\n        nsamps_range", "new": "        gulp = max(gulp, max_delay * 2)\n        nsamps_range"},
 ]
